@@ -72,6 +72,7 @@ var (
 	poolInner    = newPool("sub", 44, "complete", 28, "init", 3, "ping", 5, "pong", 4, "terminate", 1, "unknown", 2, "nonjson", 2, "shape", 7, "srvtype", 1, "empty", 3)
 	poolInnerGWS = newPool("sub", 40, "complete", 26, "init", 5, "ping", 2, "pong", 2, "terminate", 3, "unknown", 5, "nonjson", 5, "shape", 7, "srvtype", 3, "empty", 2)
 	pct7, pct10  = pct(7), pct(10)
+	pct30        = pct(30)
 	pct35, pct40 = pct(35), pct(40)
 	pct70, pct75 = pct(70), pct(75)
 	pct85        = pct(85)
@@ -126,6 +127,7 @@ type raw struct {
 	Aimed       bool
 	Aim         int
 	Promote     bool // a complete drawn while nothing is live becomes a subscribe
+	Refuse      bool // the before-start hook (if the case configures one) refuses this operation
 }
 
 func genRaw(proto string) *rapid.Generator[raw] {
@@ -165,6 +167,7 @@ func genRaw(proto string) *rapid.Generator[raw] {
 		r.Aimed = pct75.draw(t, "aimed") == "y"
 		r.Aim = uniform(t, "aim", 0, 2)
 		r.Promote = pct70.draw(t, "promote") == "y"
+		r.Refuse = pct30.draw(t, "refuse") == "y"
 		return r
 	})
 }
@@ -180,7 +183,7 @@ func genSeq(proto string) func(t *rapid.T) Case {
 		lead = pct(60)
 	}
 	return func(t *rapid.T) Case {
-		c := Case{Proto: proto}
+		c := Case{Proto: proto, Hook: pct30.draw(t, "hook") == "y"}
 		if lead.draw(t, "leadInit") == "y" {
 			c.Msgs = append(c.Msgs, Msg{K: "init", V: atoi(poolInitOK.draw(t, "initv"))})
 		}
@@ -222,7 +225,8 @@ func genSeq(proto string) func(t *rapid.T) Case {
 						}
 					}
 					m.X = &x
-					if !live[m.ID] {
+					m.Refuse = c.Hook && r.Refuse
+					if !live[m.ID] && !m.Refuse {
 						live[m.ID] = x.Op == "subscription" || x.Gate >= 0
 					}
 				}
